@@ -21,7 +21,14 @@ Verdict(cs) ==
        ELSE [ok |-> FALSE, clause |-> fs[b].prog.err, ln |-> fs[b].first + fs[b].prog.errln - 1,
              proc |-> fs[b].name, nstmt |-> Len(fs)]
 
+\* A Color BASIC variable whose name is a BASIC09 reserved word (DO, PI, SQ are the two-letter
+\* ones the source grammar admits) is emitted unchanged: one root cause, one key per word
+ReservedVars == {"DO", "PI", "SQ"}
+Keyed(cs, v) ==
+  LET ws == { w \in ReservedVars : (\E k \in 1..Len(cs.srcvars) : cs.srcvars[k] = w) /\
+                                   v.clause \in {"stray-token:reserved-word:" \o w, "stray-token:reserved-word-as-variable:" \o w} } IN
+  IF v.ok \/ ws = {} THEN v ELSE [v EXCEPT !.clause = "stray-token:source-variable-named-like-a-reserved-word:" \o (CHOOSE w \in ws : TRUE)]
 VARIABLES ci, vd
 Init == ci \in 1..Len(Cases) /\ vd = [clause |-> "todo"]
-Next == vd.clause = "todo" /\ vd' = Verdict(Cases[ci]) /\ ci' = ci
+Next == vd.clause = "todo" /\ vd' = Keyed(Cases[ci], Verdict(Cases[ci])) /\ ci' = ci
 =============================================================================
